@@ -19,6 +19,7 @@ Reading guide
 import EPV.Lemmas.ParserState
 import EPV.Lemmas.ParserStateLexer
 import EPV.Lemmas.ParserStateXErr
+import EPV.Lemmas.ParserStateComments
 namespace EPV.C03
 open EPV.PState EPV.Lexer EPV.XErr
 
@@ -129,6 +130,41 @@ spin on the tokenizer) -/
 theorem advance_consumes (tb : Table) (o : Oracles) (symbols : List String) (c : Cursor Tok Match) :
     ∃ pre, c.tokens = pre ++ (advance tb o symbols c).2.tokens :=
   EPV.Lexer.advance_consumes tb o symbols c
+
+/-- **comment skipping terminates and fails only with coded errors** (`XPath2Parser.advance`,
+xpath2_parser.py:220-243, with `Parser.advance_until`, tdop.py:573-611): for every cursor whose
+pending matches come from the tokenizer pattern and every expected-symbols argument, with fuel above
+the number of pending matches the model never runs out of fuel — neither in the `while comment_level`
+loop (arbitrarily nested, unterminated or unbalanced comments) nor in the recursive `advance(':)')` —
+and the outcome is a normal return or XPST0003 / XPST0017 / FORG0006. -/
+theorem advance2_total (tb : Table) (o : Oracles) (symbols : List String) (c : Cursor Tok Match)
+    (hs : SpecialsOK tb = true) (hm : ∀ m ∈ c.tokens, FromPattern m = true) :
+    (advance2 tb o (c.tokens.length + 1) symbols c).1 = .ok () ∨
+    ∃ e, (advance2 tb o (c.tokens.length + 1) symbols c).1 = .error e ∧ LexErr e :=
+  (advance2_spec tb o (specials_of_ok hs) (c.tokens.length + 1) symbols c hm (Nat.lt_succ_self _)).1
+
+/-- the comment loop alone: at most `pending matches + 2` iterations, whatever the nesting level -/
+theorem comment_loop_terminates (tb : Table) (level : Nat) (c : Cursor Tok Match) (hs : SpecialsOK tb = true) :
+    (commentLoop tb (c.tokens.length + 2) level c).1 = .ok () ∨
+    ∃ e, (commentLoop tb (c.tokens.length + 2) level c).1 = .error e ∧ LexErr e :=
+  (commentLoop_spec tb (specials_of_ok hs) (c.tokens.length + 2) level c
+    (by unfold mu; split <;> omega)).1
+
+/-- test on literals: `1 (: a (: b :) c :) 2`, an unterminated comment, and `:(:` -/
+example :
+    let tb : Table := [("(string)", "literal"), ("(float)", "literal"), ("(decimal)", "literal"),
+      ("(integer)", "literal"), ("(name)", "name"), ("(unknown)", "symbol"), ("(invalid)", "symbol"),
+      ("(end)", "symbol"), ("(:", "symbol"), (":)", "symbol"), (":", "symbol")]
+    let o := pyOracles (fun _ => true)
+    let start : Tok := ⟨"(start)", "symbol", "(start)"⟩
+    let sym (s : String) : Match := ⟨s, none, some s, none, none⟩
+    let lit (s : String) : Match := ⟨s, some s, none, none, none⟩
+    let nm (s : String) : Match := ⟨s, none, none, some s, none⟩
+    let run (ms : List Match) := lexAll2 tb o (ms.length + 2) { Cursor.init start with tokens := ms }
+    run [lit "1", sym "(:", nm "a", sym "(:", nm "b", sym ":)", nm "c", sym ":)", lit "2"]
+      = (["(integer)", "(integer)", "(end)"], none, "(end)") ∧
+    run [lit "1", sym "(:", nm "a"] = (["(integer)"], some (.coded "XPST0003"), "(end)") ∧
+    run [sym ":", sym "(:", sym ":)"] = ([":"], some (.coded "XPST0003"), "(:") := by decide
 
 /-- the hypotheses are satisfiable and all branches are live (test on literals) -/
 example :
